@@ -54,7 +54,15 @@ impl PixelDataReader for RleLosslessAdapter {
         let frame_size = stride * samples_per_pixel;
         // extend `dst` to make room for decoded pixel data
         let base_offset = dst.len();
-        dst.resize(base_offset + frame_size * nr_frames, 0);
+        // (the image attributes are not to be trusted:
+        // fail instead of aborting when they ask for more memory than there is)
+        let additional = frame_size
+            .checked_mul(nr_frames)
+            .whatever_context("Image attributes describe more pixel data than can be addressed")?;
+        dst.try_reserve_exact(additional)
+            .map_err(|e| Box::new(e) as Box<_>)
+            .whatever_context("Could not allocate the buffer for the decoded pixel data")?;
+        dst.resize(base_offset + additional, 0);
 
         // RLE encoded data is ordered like this (for 16-bit, 3 sample):
         //  Segment: 0     | 1     | 2     | 3     | 4     | 5
@@ -169,6 +177,11 @@ impl PixelDataReader for RleLosslessAdapter {
         let frame_size = stride * samples_per_pixel;
         // extend `dst` to make room for decoded pixel data
         let base_offset = dst.len();
+        // (the image attributes are not to be trusted:
+        // fail instead of aborting when they ask for more memory than there is)
+        dst.try_reserve_exact(frame_size)
+            .map_err(|e| Box::new(e) as Box<_>)
+            .whatever_context("Could not allocate the buffer for the decoded pixel data")?;
         dst.resize(base_offset + frame_size, 0);
 
         // RLE encoded data is ordered like this (for 16-bit, 3 sample):
